@@ -648,7 +648,7 @@ impl<W: Write + io::Seek> ZipWriter<W> {
         let data_start = file.data_start.get_mut();
 
         if !self.writing_to_central_extra_field_only {
-            let writer = self.inner.get_plain();
+            let writer = self.inner.get_header_writer();
 
             // Append extra data to local file header and keep it for central file header.
             writer.write_all(&file.extra_field)?;
@@ -1060,6 +1060,17 @@ impl<W: Write + io::Seek> GenericZipWriter<W> {
         match *self {
             GenericZipWriter::Storer(MaybeEncrypted::Unencrypted(ref mut w)) => w,
             _ => panic!("Should have switched to stored and unencrypted beforehand"),
+        }
+    }
+
+    /// The underlying writer while the local header of the current entry can still be completed.
+    /// An encrypting entry qualifies too: the ZipCrypto writer buffers the whole entry until it is
+    /// finished, so nothing behind the header has reached the underlying writer yet.
+    fn get_header_writer(&mut self) -> &mut W {
+        match *self {
+            GenericZipWriter::Storer(MaybeEncrypted::Unencrypted(ref mut w)) => w,
+            GenericZipWriter::Storer(MaybeEncrypted::Encrypted(ref mut w)) => &mut w.writer,
+            _ => panic!("Should have switched to stored beforehand"),
         }
     }
 
